@@ -429,7 +429,7 @@ def run(chk: Check):
     rng = chk.rng
     corr_broken = []
     notes = chk.notes
-    ok, log = coq_make(["theories/C04/CasesC04.vo", "theories/C04/KernelDefs.vo"])
+    ok, log = coq_make(["theories/C04/CasesC04.vo", "theories/C04/KernelDefs.vo", "theories/C04/HafModel.vo"])
     if not ok:
         corr_broken.append("the model files C04/CasesC04.v, C04/KernelDefs.v do not compile: " + log[-500:])
         chk.finish(rule="-", explanation="model does not compile", correspondence_broken=corr_broken)
@@ -496,7 +496,10 @@ def run(chk: Check):
             real_cases.insert(0, {k: c[k] for k in ("kind", "M", "y") if k in c} | {"prec": "d", "strided": False})
         elif c.get("kind") in ("haf", "lhaf", "haf_batch", "lhaf_batch"):
             haf_cases.insert(0, {k: c[k] for k in ("kind", "M", "occ", "diag", "m", "cutoff") if k in c} | {"prec": "d", "strided": False})
-    impl = run_impl("c04_impl.py", {"perm": py_cases, "haf": [R.haf_payload(c) for c in haf_cases],
+    # every occupation vector with total <= 8 on <= 6 modes (exact tie of the integer bookkeeping)
+    mo_cases = [list(v) for d in range(1, 7) for v in R.compositions_upto(d, 8)]
+    kept_cases = [list(v) for n in range(0, 6) for v in R.compositions_upto(n, 4)]
+    impl = run_impl("c04_impl.py", {"perm": py_cases, "mo": mo_cases, "kept": kept_cases, "haf": [R.haf_payload(c) for c in haf_cases],
                                      "real": [R.real_payload(c) for c in real_cases]}, timeout=3000)
     py_res = {i: r for i, r in zip(py_idx, impl["perm"])}
     lap("python impl run")
@@ -686,6 +689,8 @@ def run(chk: Check):
     chk.stream("permanent / Laplace: fresh native build vs defining sum in Python fractions (search)", n_search, len(seen_nontriv), kind="search")
 
     lap("perm compared")
+    R.check_integer_bookkeeping(chk, impl, mo_cases, kept_cases, corr_broken, CASES_HEADER)
+    lap("integer bookkeeping compared")
     # ------------------------------------------------------------ the other kernels
     R.check_other_kernels(chk, impl, haf_cases, real_cases, plain_exe, san_exe, run_native, corr_broken, IMPORTS, parse_all_ints, san_key)
 
